@@ -8,12 +8,12 @@ from mapproxy.seed.seeder import SeedProgress  # noqa: E402
 
 
 def _valid(p):
-    return all(0 <= i < n <= 4 for i, n in p)
+    return all(0 <= i < n <= 3 for i, n in p)
 
 
 def can_skip_spec(old: List[Tuple[int, int]], cur: List[Tuple[int, int]]) -> bool:
     """
-    pre: 1 <= len(old) <= 3 and 1 <= len(cur) <= 3
+    pre: 1 <= len(old) <= 2 and 1 <= len(cur) <= 2
     pre: _valid(old) and _valid(cur)
     post: _
     """
